@@ -237,7 +237,7 @@ def build(ctx, index):
     if index < 0:     # fixed corpus (run first)
         seq, nb, sysw = filegen.shared_gradient_corpus()
         return rng, seq, nb, sysw, filegen.rand_system(rng, default_prob=0.3)
-    seq, nb, sysw = filegen.random_sequence(rng, twins=True)
+    seq, nb, sysw = filegen.random_sequence(rng, twins=True, history=True)
     sysr = filegen.rand_system(rng, default_prob=0.3)
     return rng, seq, nb, sysw, sysr
 
@@ -262,7 +262,7 @@ def one_case(ctx, index, want_model=True):
     with tempfile.TemporaryDirectory(prefix='pvC01') as d:
         fn = os.path.join(d, 'a.seq')
         try:
-            seq.write(fn, create_signature=sig)
+            seq.write(fn, create_signature=sig, check_timing=rng.random() < 0.6)
         except AssertionError:
             ctx.count('skipped.write_assertion')
             return None
